@@ -77,6 +77,7 @@ def main():
                 res["runs"] += list(ex.map(lambda p: check(p, "quick"), sorted(others)))
     finally:
         subprocess.run(["git", "-C", SEED_REPO, "checkout", "--", "."])
+        subprocess.run(["git", "-C", SEED_REPO, "clean", "-fdq"])
     res["caught_by_own_check"] = any(r["property"] == pid and r["exit"] != 0 for r in res["runs"])
     res["caught_by"] = sorted(set(r["property"] + ":" + r["tier"] for r in res["runs"] if r["exit"] != 0))
     json.dump(res, open(os.path.join(d, "result.json"), "w"), indent=1)
